@@ -647,7 +647,10 @@ func (rpi *RetentionPolicyInfo) Measurement(name string) *MeasurementInfo {
 func (rpi *RetentionPolicyInfo) validMeasurementShardType(shardType, mstName string) error {
 	var msti *MeasurementInfo
 	for _, mst := range rpi.Measurements {
-		if influx.GetOriginMstName(mst.Name) == mstName {
+		// the measurement being (re-)created or altered is skipped, but not an older version of it that
+		// is only marked deleted: it stays in the policy until it is dropped and still decides how
+		// new shard groups are sharded
+		if influx.GetOriginMstName(mst.Name) == mstName && !mst.MarkDeleted {
 			continue
 		}
 		msti = mst
